@@ -12,6 +12,8 @@ bound: that needs source hooks plus a runtime scheduler.
 """
 from __future__ import annotations
 
+import os
+
 import sys
 import types
 import warnings
@@ -271,7 +273,7 @@ def _shard(sh: Dict[str, Any]) -> Dict[str, Any]:
             if sum(1 for x in cex if x["f4"] == c["f4"]) < 2:
                 cex.append(c)
 
-    eng = Engine(max_seconds=sh.get("budget", 300))
+    eng = Engine(max_seconds=sh.get("budget", 300) * (6 if os.environ.get("VERIF_TIER_EFFECTIVE") == "thorough" else 1))
     eng.explore(harness)
     return par.shard_result(eng, shard=f"kind0={KINDS[k0]},early={early}", cex=cex, samples=samples)
 
@@ -367,7 +369,7 @@ def _shard2(sh: Dict[str, Any]) -> Dict[str, Any]:
         if why and len(cex) < 3:
             cex.append({"threads": True, "kinds": kinds, "park": park, "third": third, "why": why, "f4": False})
 
-    eng = Engine(max_seconds=300)
+    eng = Engine(max_seconds=300 * (6 if os.environ.get("VERIF_TIER_EFFECTIVE") == "thorough" else 1))
     eng.explore(harness)
     return par.shard_result(eng, shard="two-threads", cex=cex, samples=samples)
 
